@@ -471,6 +471,23 @@ Proof.
 Qed.
 End Angle.
 
+(* the selection step used by the correspondence check is miller_unique *)
+Lemma miller_unique_select {E K K2 : Type} (cmp : K -> K -> comparison) (cmp2 : K2 -> K2 -> comparison)
+      (rnd : E -> E) (iszero : E -> bool) (key : E -> K) (d : E) (okey : E -> K2) (flat : list E) :
+  fst (miller_unique cmp cmp2 rnd iszero key d okey true flat)
+  = sym_select cmp2 d (fst (fst (obj_unique cmp rnd iszero key d flat)))
+               (map okey (fst (fst (obj_unique cmp rnd iszero key d flat)))).
+Proof.
+  unfold miller_unique, sym_select.
+  destruct (obj_unique cmp rnd iszero key d flat) as [[v idx] inv]. cbn [fst snd].
+  destruct (np_unique cmp2 (map okey v)) as [[us idx2] inv2]. cbn [fst snd]. reflexivity.
+Qed.
+
+Lemma orbit_key_of_eq {T} (O : Scalar.Ops T) (rnd10 : T -> T) (ops : list (Quat.rot (T:=T))) (r : list T) :
+  orbit_key O rnd10 ops r
+  = orbit_key_of O rnd10 (map (fun g => vec2row (Quat.ract O g (row2vec O r))) ops).
+Proof. unfold orbit_key, orbit_key_of. rewrite map_map. reflexivity. Qed.
+
 (* ======================= unique(use_symmetry=True): one vector per orbit *)
 Section UniqueOrbits.
 Context {G E K : Type} (cmp : K -> K -> comparison) (cmp2 : list E -> list E -> comparison)
